@@ -143,26 +143,46 @@ struct Emitter
         return os.str();
     }
 
+    std::string lambdaId(const CXXRecordDecl* r)
+    {
+        auto        l = r->getLocation();
+        std::string k = "lambda@" + fileOf(l) + ":" + std::to_string(lineOf(l)) + ":" + std::to_string(colOf(l));
+        // enclosing instantiation, to keep lambdas inside template instantiations apart
+        for (const DeclContext* dc = r->getParent(); dc; dc = dc->getParent())
+            if (auto* pf = dyn_cast<FunctionDecl>(dc))
+            {
+                if (!(isa<CXXMethodDecl>(pf) && cast<CXXMethodDecl>(pf)->getParent()->isLambda()))
+                {
+                    k += "@" + fnKeyPlain(pf);
+                    break;
+                }
+            }
+        return k;
+    }
+
+    std::string fnKeyPlain(const FunctionDecl* f)
+    {
+        std::string k = diagName(f);
+        k += "(";
+        bool first = true;
+        for (auto* p : f->parameters())
+        {
+            if (!first)
+                k += ", ";
+            first = false;
+            k += p->getType().getCanonicalType().getAsString(PP);
+        }
+        k += ")";
+        return k;
+    }
+
     std::string fnKey(const FunctionDecl* f)
     {
         if (!f)
             return "?";
         std::string k;
         if (auto* m = dyn_cast<CXXMethodDecl>(f); m && m->getParent()->isLambda())
-        {
-            auto l = m->getParent()->getLocation();
-            k      = "lambda@" + fileOf(l) + ":" + std::to_string(lineOf(l)) + ":" + std::to_string(colOf(l));
-            // enclosing instantiation, to keep lambdas inside template instantiations apart
-            for (const DeclContext* dc = m->getParent()->getParent(); dc; dc = dc->getParent())
-                if (auto* pf = dyn_cast<FunctionDecl>(dc))
-                {
-                    if (!(isa<CXXMethodDecl>(pf) && cast<CXXMethodDecl>(pf)->getParent()->isLambda()))
-                    {
-                        k += "@" + diagName(pf);
-                        break;
-                    }
-                }
-        }
+            k = lambdaId(m->getParent());
         else
             k = diagName(f);
         k += "(";
@@ -724,6 +744,9 @@ struct Emitter
         {
             o["k"]   = "lambda";
             o["key"] = fnKey(x->getCallOperator());
+            o["lid"] = lambdaId(x->getLambdaClass());
+            if (x->isGenericLambda())
+                o["generic"] = true;
             Array caps;
             auto  ci = x->capture_init_begin();
             for (auto& cap : x->captures())
@@ -948,7 +971,10 @@ struct Emitter
             if (!ov.empty())
                 o["overrides"] = std::move(ov);
             if (m->getParent()->isLambda())
+            {
                 o["lambda"] = true;
+                o["lid"]    = lambdaId(m->getParent());
+            }
             if (isa<CXXConstructorDecl>(m))
                 o["ctor"] = cast<CXXConstructorDecl>(m)->isCopyConstructor() ? "copy"
                             : cast<CXXConstructorDecl>(m)->isMoveConstructor() ? "move"
